@@ -12,6 +12,8 @@ import (
 	"time"
 
 	"github.com/anishathalye/porcupine"
+	"github.com/tailscale/setec/audit"
+	"github.com/tailscale/setec/db"
 	"pgregory.net/rapid"
 	"verifharness/dbx"
 	"verifharness/h"
@@ -29,9 +31,10 @@ type ConcOp struct {
 }
 
 type LinCase struct {
-	Progs [][]ConcOp `json:"progs"`
-	HTTP  bool       `json:"http"`
-	Setup int        `json:"setup"` // the first Setup programs run to completion, one after the other, before the others start
+	Progs      [][]ConcOp `json:"progs"`
+	HTTP       bool       `json:"http"`
+	Setup      int        `json:"setup"`       // the first Setup programs run to completion, one after the other, before the others start
+	AuditYield int        `json:"audit_yield"` // the audit device yields the processor this many times per write/sync (a slow device)
 }
 
 type linOut struct {
@@ -112,11 +115,39 @@ var linModel = porcupine.Model{
 	DescribeOperation: func(in, out interface{}) string { return fmt.Sprintf("%+v -> %+v", in, out) },
 }
 
+// linSink is the audit device of the concurrent runs: it really reads the bytes it is handed
+// (so the race detector sees a writer that lets go of a buffer too early), keeps a copy of every
+// record, and is a little slow - which widens every window in which two requests overlap.
+type linSink struct {
+	mu      sync.Mutex
+	records [][]byte
+	yields  int
+}
+
+func (s *linSink) Write(p []byte) (int, error) {
+	cp := append([]byte{}, p...)
+	for i := 0; i < s.yields; i++ {
+		runtime.Gosched()
+	}
+	s.mu.Lock()
+	s.records = append(s.records, cp)
+	s.mu.Unlock()
+	return len(p), nil
+}
+
+func (s *linSink) Sync() error {
+	for i := 0; i < s.yields; i++ {
+		runtime.Gosched()
+	}
+	return nil
+}
+
 func runC14(t *testing.T, c LinCase) (*h.Violation, h.Info) {
 	var info h.Info
 	dir := caseDir(t)
 	defer os.RemoveAll(dir)
-	d, err := dbx.OpenDiscard(filepath.Join(dir, "db"), dbx.DummyKey())
+	sink := &linSink{yields: c.AuditYield}
+	d, err := db.Open(filepath.Join(dir, "db"), dbx.DummyKey(), audit.New(sink))
 	if err != nil {
 		return h.V("harness", "open: %v", err), info
 	}
@@ -124,13 +155,13 @@ func runC14(t *testing.T, c LinCase) (*h.Violation, h.Info) {
 	var mk func() dbx.Target = func() dbx.Target { return dbx.DBTarget{D: d} }
 	if c.HTTP {
 		info.Class("path-http")
-		mk = func() dbx.Target {
-			ht, err := dbx.NewHTTP(d, []dbx.CallerM{su}) // one mux per client; all share the database
-			if err != nil {
-				panic(err)
-			}
-			return ht
+		// ONE server (one set of handlers) serves all clients at once, as in production;
+		// every client gets its own recorder of replies
+		shared, err := dbx.NewHTTP(d, []dbx.CallerM{su})
+		if err != nil {
+			return h.V("harness", "server: %v", err), info
 		}
+		mk = func() dbx.Target { return &dbx.HTTPTarget{Mux: shared.Mux, AddrOf: shared.AddrOf} }
 	} else {
 		info.Class("path-db")
 	}
@@ -206,6 +237,23 @@ func runC14(t *testing.T, c LinCase) (*h.Violation, h.Info) {
 		info.Class("overlapping-calls-on-one-name-with-mutation")
 		info.NonTrivial = true
 	}
+	// the audit writer under concurrent use: every record it handed to the device is one complete line,
+	// and no record was handed over twice
+	sink.mu.Lock()
+	ids := map[uint64]bool{}
+	for _, rec := range sink.records {
+		r, perr := parseRecord(rec)
+		if perr != nil {
+			sink.mu.Unlock()
+			return h.V("audit-writer-race-free", "concurrent calls made the audit writer hand a torn record to the device: %v", perr), info
+		}
+		if ids[*r.ID] {
+			sink.mu.Unlock()
+			return h.V("audit-writer-race-free", "concurrent calls made the audit writer hand the same record (id %d) to the device twice: %q", *r.ID, rec), info
+		}
+		ids[*r.ID] = true
+	}
+	sink.mu.Unlock()
 	res := porcupine.CheckOperationsTimeout(linModel, hist, 20*time.Second)
 	switch res {
 	case porcupine.Illegal:
@@ -221,7 +269,7 @@ func runC14(t *testing.T, c LinCase) (*h.Violation, h.Info) {
 }
 
 func genLinCase(rt *rapid.T) LinCase {
-	c := LinCase{HTTP: rapid.IntRange(0, 2).Draw(rt, "http") == 0}
+	c := LinCase{HTTP: rapid.IntRange(0, 2).Draw(rt, "http") == 0, AuditYield: rapid.SampledFrom([]int{0, 1, 3}).Draw(rt, "audityield")}
 	nc := rapid.IntRange(2, 4).Draw(rt, "clients")
 	names := []string{"a", "a", "a", "b"}
 	for i := 0; i < nc; i++ {
@@ -240,10 +288,10 @@ func genLinCase(rt *rapid.T) LinCase {
 
 var c14 = &h.Campaign[LinCase]{
 	Prop: "C14", Sub: "linearizability",
-	Rule: "rapid: small concurrent programs, 2-4 clients x 2-5 calls (put/activate/delete-version/delete/get/get-version/info/list) on names {a (weighted), b} with a 3-value pool and generated yields, started from a barrier on a real database file, at db.DB or through concurrent mux.ServeHTTP; a final sequential full dump is appended; each recorded history is decided by porcupine's exhaustive linearizability search against the map model; runs under the race detector; non-trivial = the recorded intervals show >= 2 overlapping calls of different clients on the same name (or a list), at least one of them a mutation; distinct by program (schedules are sampled, so the same program may be explored under several interleavings)",
+	Rule:  "rapid: small concurrent programs, 2-4 clients x 2-5 calls (put/activate/delete-version/delete/get/get-version/info/list) on names {a (weighted), b} with a 3-value pool and generated yields, started from a barrier on a real database file, at db.DB or through concurrent mux.ServeHTTP; a final sequential full dump is appended; each recorded history is decided by porcupine's exhaustive linearizability search against the map model; runs under the race detector; non-trivial = the recorded intervals show >= 2 overlapping calls of different clients on the same name (or a list), at least one of them a mutation; distinct by program (schedules are sampled, so the same program may be explored under several interleavings)",
 	Quick: 1500, Thorough: 200000,
-	Gen:   genLinCase,
-	Run:   runC14,
+	Gen: genLinCase,
+	Run: runC14,
 }
 
 // C09 (concurrent part): "not-modified iff the active version is V at that moment" under
@@ -251,10 +299,10 @@ var c14 = &h.Campaign[LinCase]{
 // conditional gets and activations of one secret that starts with several versions.
 var c09conc = &h.Campaign[LinCase]{
 	Prop: "C09", Sub: "concurrent",
-	Rule: "rapid: 2-4 clients x 2-6 calls, mostly conditional gets (V in 1..4) and activations (also puts, get) on one secret that first receives three versions; each recorded history is decided by porcupine against the map model (a conditional get may answer not-modified only if some linearization point has active == V, and may never return version V itself); under the race detector; non-trivial = overlapping calls on the name with at least one mutation; distinct by program",
+	Rule:  "rapid: 2-4 clients x 2-6 calls, mostly conditional gets (V in 1..4) and activations (also puts, get) on one secret that first receives three versions; each recorded history is decided by porcupine against the map model (a conditional get may answer not-modified only if some linearization point has active == V, and may never return version V itself); under the race detector; non-trivial = overlapping calls on the name with at least one mutation; distinct by program",
 	Quick: 600, Thorough: 80000,
 	Gen: func(rt *rapid.T) LinCase {
-		c := LinCase{HTTP: rapid.IntRange(0, 3).Draw(rt, "http") == 0}
+		c := LinCase{HTTP: rapid.IntRange(0, 1).Draw(rt, "http") == 0, AuditYield: rapid.SampledFrom([]int{0, 1, 3}).Draw(rt, "audityield")}
 		c.Progs = append(c.Progs, []ConcOp{{Kind: "put", Name: "a", Val: "x"}, {Kind: "put", Name: "a", Val: "y"}, {Kind: "put", Name: "a", Val: "z"}})
 		nc := rapid.IntRange(2, 4).Draw(rt, "clients")
 		for i := 0; i < nc; i++ {
